@@ -30,6 +30,7 @@ const OP_DB_ID_SIZE: usize = 8;
 const OP_TIME_SIZE: usize = 8;
 const OP_OP_SIZE: usize = 1;
 const OP_RECORD_SIZE: usize = OP_TIME_SIZE + OP_DB_ID_SIZE + OP_KEY_SIZE + OP_OP_SIZE;
+const METADATA_FILE_NAME: &str = "nun.metadata";
 
 fn get_key_disk_size(key_size: usize) -> u64 {
     (U64_SIZE + key_size + ADDR_SIZE + VERSION_SIZE) as u64
@@ -37,84 +38,90 @@ fn get_key_disk_size(key_size: usize) -> u64 {
 
 pub struct S3Storage {}
 impl S3Storage {
-    pub fn storage_data_on_cloud(db: &Database, reclame_space: bool, db_name: &String) -> u32 {
+    pub fn storage_data_on_cloud(db: &Database, _reclame_space: bool, db_name: &String) -> u32 {
         let mut changed_keys = 0;
         let rt = Runtime::new().unwrap();
-        let keys_to_update = get_keys_to_update(db, reclame_space);
+        // The objects are replaced as a whole, all the keys need to be part of them every time
+        let keys_to_update = get_keys_to_update(db, true);
 
-        let key_buffer = BytesMut::with_capacity(OP_RECORD_SIZE * 10);
+        let mut keys_file = BytesMut::with_capacity(OP_RECORD_SIZE * 10);
         //@todo should this really be te buffer size of the values????
-        let value_buffer = BytesMut::with_capacity(OP_RECORD_SIZE * 10);
-        {
-            let mut keys_file = key_buffer;
-            let mut values_file = value_buffer;
-            let current_key_file_size = 0;
+        let mut values_file = BytesMut::with_capacity(OP_RECORD_SIZE * 10);
+        let mut value_addr = u64::from(0 as u64);
+        let mut next_key_addr = u64::from(0 as u64);
+        let mut stored_addrs: Vec<(u64, u64)> = Vec::with_capacity(keys_to_update.len());
 
-            //let (mut values_file, current_value_file_size) = get_values_file_append_mode(&db_name, reclame_space);
-            // To inplace update
-            log::debug!("current_key_file_size: {}", current_key_file_size);
+        for (key, value) in keys_to_update.iter() {
+            if value.state == ValueStatus::Deleted {
+                // A removed key is simply not part of the new objects
+                stored_addrs.push((0, 0));
+                continue;
+            }
+            values_file.put_slice(&value.value.len().to_le_bytes());
+            //8bytes
+            let value_as_bytes = value.value.as_bytes();
+            //Nth bytes
+            values_file.put_slice(&value_as_bytes);
+            //4 bytes
+            values_file.put_slice(&ValueStatus::Ok.to_le_bytes());
+            let record_size = (U64_SIZE + value_as_bytes.len() + VERSION_SIZE) as u64;
+            log::debug!(
+                "Write key: {}, addr: {} value_addr: {}, record_size: {}",
+                key,
+                next_key_addr,
+                value_addr,
+                record_size
+            );
+            let len = key.len();
+            //8bytes
+            keys_file.put_slice(&len.to_le_bytes());
+            //Nth bytes
+            keys_file.put_slice(&key.as_bytes());
+            //4 bytes
+            keys_file.put_slice(&value.version.to_le_bytes());
+            //8 bytes
+            keys_file.put_slice(&value_addr.to_le_bytes());
+            stored_addrs.push((value_addr, next_key_addr));
+            value_addr = value_addr + record_size;
+            next_key_addr = next_key_addr + get_key_disk_size(key.len());
+        }
 
-            let mut value_addr = u64::from(0 as u64); //current_value_file_size;
-            let mut next_key_addr = current_key_file_size;
+        let mut metadata_file = BytesMut::with_capacity(U64_SIZE + VERSION_SIZE);
+        //8 bytes
+        metadata_file.put_slice(&db.metadata.id.to_le_bytes());
+        //4 bytes
+        metadata_file.put_slice(&db.metadata.consensus_strategy.to_le_bytes());
 
-            for (key, value) in keys_to_update {
-                changed_keys = changed_keys + 1;
-
-                values_file.put_slice(&value.value.len().to_le_bytes());
-                //8bytes
-                let value_as_bytes = value.value.as_bytes();
-                //Nth bytes
-                values_file.put_slice(&value_as_bytes);
-                //4 bytes
-                values_file.put_slice(&value.state.to_le_bytes());
-                let record_size = (U64_SIZE + value_as_bytes.len() + VERSION_SIZE) as u64;
-                log::debug!(
-                    "Write key: {}, addr: {} value_addr: {}, record_size: {}",
-                    key,
-                    next_key_addr,
-                    value_addr,
-                    record_size
-                );
-                // Append key file
-                // Write key
-
-                let len = key.len();
-
-                //8bytes
-                keys_file.put_slice(&len.to_le_bytes());
-                //Nth bytes
-                keys_file.put_slice(&key.as_bytes());
-                //4 bytes
-                keys_file.put_slice(&value.version.to_le_bytes());
-                //8 bytes
-                keys_file.put_slice(&value_addr.to_le_bytes());
-                let key_size = get_key_disk_size(key.len());
+        let uploads = vec![
+            (metadata_file, format!("{}/{}", db_name, METADATA_FILE_NAME)),
+            (values_file, format!("{}/nun.values", db_name)),
+            (keys_file, format!("{}/nun.keys", db_name)),
+        ];
+        for (buffer, object_name) in uploads {
+            if rt
+                .block_on(S3Storage::store_buffer_to_s3(buffer, &object_name))
+                .is_none()
+            {
+                log::error!("Fail to store {} in s3", object_name);
+                panic!("Fail to store {} in s3", object_name);
+            }
+        }
+        // Only what did reach s3 is clean
+        for ((key, value), (value_addr, key_addr)) in keys_to_update.iter().zip(stored_addrs) {
+            changed_keys = changed_keys + 1;
+            if value.state == ValueStatus::Deleted {
+                db.purge_deleted_key(&key);
+            } else {
                 db.set_value_as_ok(
                     &key,
                     &value,
                     value_addr,
-                    next_key_addr,
+                    key_addr,
                     Databases::next_op_log_id(),
                 );
-                value_addr = value_addr + record_size;
-                log::debug!("Next Value addr: {}", value_addr);
-                next_key_addr = next_key_addr + key_size;
             }
-
-            //keys_file.flush().unwrap();
-            rt.block_on(S3Storage::store_buffer_to_s3(
-                keys_file,
-                &format!("{}/nun.keys", db_name),
-            ));
-            rt.block_on(S3Storage::store_buffer_to_s3(
-                values_file,
-                &format!("{}/nun.values", db_name),
-            ));
         }
-        //keys_file.
-        //values_file.flush().unwrap();
-        //write_metadata_file(db_name, db);
-        //log::debug!("snapshoted {} keys", changed_keys);
+        log::debug!("snapshoted {} keys", changed_keys);
         changed_keys
     }
 
@@ -153,7 +160,10 @@ impl S3Storage {
             .await
         {
             Ok(_) => Some(true),
-            Err(_) => None,
+            Err(e) => {
+                log::error!("S3Storage::store_buffer_to_s3 failed: {}", e);
+                None
+            }
         }
     }
 
@@ -178,6 +188,44 @@ impl S3Storage {
 
         let client = aws_sdk_s3::Client::from_conf(s3_config);
         let rt = Runtime::new().unwrap();
+        let metadata_key_file = format!(
+            "{}/{}/{}",
+            NUN_S3_READ_PREFIX.to_string(),
+            db_name,
+            METADATA_FILE_NAME
+        );
+        // Buckets written before the metadata was stored get the values they always got
+        let metadata = rt.block_on(async {
+            match client
+                .get_object()
+                .bucket(bucket)
+                .key(metadata_key_file)
+                .send()
+                .await
+            {
+                Ok(r) => {
+                    let bytes = r.body.collect().await.unwrap().into_bytes();
+                    let mut id_buffer = [0; U64_SIZE];
+                    id_buffer.copy_from_slice(&bytes[..U64_SIZE]);
+                    let mut strategy_buffer = [0; VERSION_SIZE];
+                    strategy_buffer.copy_from_slice(&bytes[U64_SIZE..U64_SIZE + VERSION_SIZE]);
+                    DatabaseMataData::new(
+                        usize::from_le_bytes(id_buffer),
+                        ConsensuStrategy::from(i32::from_le_bytes(strategy_buffer)),
+                    )
+                }
+                Err(e) => {
+                    let not_found = e
+                        .as_service_error()
+                        .map(|service_error| service_error.is_no_such_key())
+                        .unwrap_or(false);
+                    if !not_found {
+                        panic!("Fail to load the metadata of {} from s3: {}", db_name, e);
+                    }
+                    DatabaseMataData::new(1, ConsensuStrategy::Arbiter)
+                }
+            }
+        });
         let mut values_cursor = rt.block_on(async {
             let r = client
                 .get_object()
@@ -263,7 +311,7 @@ impl S3Storage {
                     Some(Database::create_db_from_value_hash(
                         db_name.to_string(),
                         value_data,
-                        DatabaseMataData::new(1, ConsensuStrategy::Arbiter),
+                        metadata,
                     ))
                 }
                 Err(e) => {
